@@ -28,6 +28,10 @@ inductive ValueKind where
   /-- a process-wide mode flag (class-level configuration such as `Structure._fail_fast`, `TypedPyDefaults.*`) that an
       operation flips for its own duration: every other thread runs in the wrong mode meanwhile -/
   | modeToggle
+  /-- the written value is computed from what the SAME shared location held (`x.n += 1`, `x.a = x.a + …`,
+      `D[k] = D.get(k, 0) + 1`, `x.items.append(…)`): between the load and the store (two bytecodes, even inside one
+      statement) another thread's update is lost -/
+  | readModifyWrite
   deriving DecidableEq, Repr
 
 structure SharedWrite where
@@ -52,6 +56,7 @@ def SharedWrite.safe (r : SharedWrite) : Bool :=
   | .transientEntries => false
   | .checkThenGet => false
   | .modeToggle => false
+  | .readModifyWrite => false
 
 /-- known-finding key of a site -/
 def SharedWrite.key (r : SharedWrite) : String := "shared-" ++ r.attr ++ ":" ++ r.file ++ ":" ++ r.func
